@@ -215,4 +215,18 @@ def r_dosimplex(idx, rep, rule="R-DOSIMPLEX"):
                   "when the origin is not on the inner side of the plane tested by `%s` (face %s) the simplex is reduced to rows [0:3] = %s: "
                   "the wrong face is kept and the triangle case continues away from the origin" % (flag, sorted(want) if want else "?", sorted(kept)),
                   "keeps %s" % sorted(kept))
-    walk(rr.node.body, None, [])
+    def push_tail(body):
+        """statements shared by all cases and written once behind the if-tree (`_set_point(.., 2, *A)` "A always becomes the last point") belong to every leaf"""
+        import copy as _copy
+        body = [st for st in body if not (isinstance(st, ast.Expr) and isinstance(st.value, ast.Constant))]
+        for i, st in enumerate(body):
+            if isinstance(st, ast.If):
+                tail = body[i + 1:]
+                if any(isinstance(x, (ast.If, ast.For, ast.While, ast.Return)) for x in tail):
+                    return body
+                new = _copy.copy(st)
+                new.body = push_tail(list(st.body) + _copy.deepcopy(tail))
+                new.orelse = push_tail(list(st.orelse) + _copy.deepcopy(tail))
+                return body[:i] + [new]
+        return body
+    walk(push_tail(list(rr.node.body)), None, [])
